@@ -40,8 +40,7 @@ func Run(hist []Op, check Checker) (fail string, judged, unjudged int) {
 		zz.UnpatchAll()
 		if d := Img.ForceRestore(); len(d) > 0 {
 			// only placeholders may still differ after Reset of everything
-			lo, hi := vk.FuncExtentFast(pcOG())
-			if bad := vk.OutsideAllowed(d, []vk.Range{{Lo: lo, Hi: hi}}); len(bad) > 0 && fail == "" {
+			if bad := vk.OutsideAllowed(d, PlaceholderRanges()); len(bad) > 0 && fail == "" {
 				fail = fmt.Sprintf("restore: after resetting every builder and UnpatchAll the image still differs at %s", Where(bad))
 			}
 		}
